@@ -5,6 +5,7 @@ import (
 	"fmt"
 	"math"
 	"math/rand/v2"
+	"sort"
 	"strings"
 
 	"github.com/biogo/hts/sam"
@@ -25,6 +26,9 @@ type HdrSpec struct {
 type RefSpec struct {
 	Name string `json:"name"`
 	Len  int    `json:"len"`
+	// Extra holds further @SQ tags in SAM text form, each preceded by a tab
+	// (e.g. "\tM5:...\tUR:file:///ref.fa").
+	Extra string `json:"extra,omitempty"`
 }
 
 // Text is the SAM header text (spec section 1.3).
@@ -34,7 +38,7 @@ func (h *HdrSpec) Text() string {
 		fmt.Fprintf(&b, "@HD\tVN:1.6\tSO:%s\n", h.SO)
 	}
 	for _, r := range h.Refs {
-		fmt.Fprintf(&b, "@SQ\tSN:%s\tLN:%d\n", r.Name, r.Len)
+		fmt.Fprintf(&b, "@SQ\tSN:%s\tLN:%d%s\n", r.Name, r.Len, r.Extra)
 	}
 	for _, g := range h.RGs {
 		fmt.Fprintf(&b, "@RG\tID:%s\n", g)
@@ -45,11 +49,31 @@ func (h *HdrSpec) Text() string {
 	return b.String()
 }
 
+// NormHeaderText brings SAM header text into a canonical form for comparison:
+// the order of the tags within a header line carries no meaning in SAM (the
+// record type comes first; @CO lines are free text), so tags are sorted.
+func NormHeaderText(s string) string {
+	lines := strings.Split(s, "\n")
+	for i, l := range lines {
+		if strings.HasPrefix(l, "@CO") {
+			continue
+		}
+		f := strings.Split(l, "\t")
+		if len(f) > 2 {
+			sort.Strings(f[1:])
+			lines[i] = strings.Join(f, "\t")
+		}
+	}
+	return strings.Join(lines, "\n")
+}
+
 // EncodeBAMHeader encodes the binary header.
-func (h *HdrSpec) EncodeBAMHeader() []byte {
+func (h *HdrSpec) EncodeBAMHeader() []byte { return h.EncodeBAMHeaderText(h.Text()) }
+
+// EncodeBAMHeaderText encodes the binary header around the given text.
+func (h *HdrSpec) EncodeBAMHeaderText(text string) []byte {
 	var b []byte
 	b = append(b, 'B', 'A', 'M', 1)
-	text := h.Text()
 	b = binary.LittleEndian.AppendUint32(b, uint32(len(text)))
 	b = append(b, text...)
 	b = binary.LittleEndian.AppendUint32(b, uint32(len(h.Refs)))
@@ -389,14 +413,38 @@ func genHdr(t *Tape) HdrSpec {
 	for i := 0; i < n; i++ {
 		h.Refs = append(h.Refs, RefSpec{Name: fmt.Sprintf("chr%c%d", 'a'+byte(t.Draw("work", 26)), i), Len: 1 + t.Draw("work", 1<<29)})
 	}
+	for i := range h.Refs {
+		// further @SQ tags of the specification, drawn after everything else
+		// about the references so that older seeds keep their meaning
+		if t.Chance("work", 1, 3) {
+			h.Refs[i].Extra = genRefExtra(t)
+		}
+	}
 	if t.Chance("work", 1, 4) {
 		h.RGs = []string{"g1"}
 	}
 	if t.Chance("work", 1, 4) {
 		h.Comments = []string{"made by htsverif"}
+		if t.Bool("work") {
+			// a comment line is free text after "@CO\t": it may hold tabs
+			h.Comments = append(h.Comments, "col1\tcol2\tcol3")
+		}
 	}
 	return h
 }
+
+// refExtras are @SQ tag sets of the SAM specification (AS, M5, SP, UR, and
+// DS/AN/TP added in v1.6).
+var refExtras = []string{
+	"\tM5:0123456789abcdef0123456789abcdef",
+	"\tUR:file:///data/ref.fa",
+	"\tAS:GRCh38\tSP:Homo sapiens",
+	"\tAS:asm1\tM5:ffffffffffffffffffffffffffffffff\tSP:sp\tUR:http://example.org/ref.fa",
+	"\tDS:a description",
+	"\tAN:alt1,alt2\tTP:circular",
+}
+
+func genRefExtra(t *Tape) string { return refExtras[t.Draw("work", len(refExtras))] }
 
 var auxTypes = []string{"A", "c", "C", "s", "S", "i", "I", "f", "Z", "H", "B"}
 
